@@ -808,12 +808,27 @@ func (vc *VC) callModular(st *State, fi *FuncInfo, si *SpecInfo, recv Val, args 
 			effTargets[g] = true
 		}
 	}
+	touched := vc.touchedObjects(st, si, recv, args)
 	for _, m := range mods {
 		if isLockHeap(m) {
 			continue // callee returns with the lock state it was entered with (lock.balanced)
 		}
 		if effTargets[m] {
 			continue // updated below by executing the contract's ghost effects
+		}
+		if refs, ok := touched[m]; ok {
+			// object-granular frame (`touches` clause, proved in the callee as obligation frame.<heap>):
+			// only the named objects' slots of this field array change
+			srt, known := vc.heapSort[m]
+			if known && strings.HasPrefix(string(srt), "(Array Ref ") {
+				es := Sort(strings.TrimSuffix(strings.TrimPrefix(string(srt), "(Array Ref "), ")"))
+				t := vc.heapGet(st, m, srt)
+				for _, r := range refs {
+					t = store(t, r, vc.declare("touched."+m, es))
+				}
+				vc.heapSet(st, m, srt, t)
+				continue
+			}
 		}
 		vc.havocHeap(st, m)
 	}
@@ -1174,6 +1189,16 @@ func constantInt(tv types.TypeAndValue) (int, bool) {
 // not reveal it reason with the symbol alone: facts about it come from callee contracts.
 func (vc *VC) evalOpaque(st *State, fi *FuncInfo, args []Val, call *ast.CallExpr) Val {
 	sig := fi.Obj.Type().(*types.Signature)
+	rs := vc.sortOf(sig.Results().At(0).Type())
+	if vc.isRevealed(fi.Obj.Name()) {
+		// revealed in this VC: the definition is used in place, everywhere (no symbol is introduced, so no
+		// linking axiom is needed)
+		saveMode := vc.specMode
+		vc.specMode = true
+		body := vc.evalPure(st, fi, args, call).(*Scalar)
+		vc.specMode = saveMode
+		return sc(body.T, rs)
+	}
 	reads := vc.opaqueReads(fi, args)
 	var as []Sort
 	var ts []string
@@ -1185,66 +1210,38 @@ func (vc *VC) evalOpaque(st *State, fi *FuncInfo, args []Val, call *ast.CallExpr
 		as = append(as, s.S)
 		ts = append(ts, s.T)
 	}
-	for _, r := range reads {
-		as = append(as, r.sort)
-		ts = append(ts, vc.heapGet(st, r.name, r.sort))
+	if len(reads) > 0 {
+		// the footprint: the versions of the heap arrays the definition reads. Two applications denote the
+		// same value when arguments and versions coincide; nothing else is assumed (the arrays themselves are
+		// not passed to the solver: a snapshot constant stands for the tuple of versions)
+		for _, r := range reads {
+			as = append(as, "Vid")
+			ts = append(ts, vc.vidOf(vc.heapGet(st, r.name, r.sort)))
+		}
 	}
-	rs := vc.sortOf(sig.Results().At(0).Type())
 	f := vc.declareFun("op."+fi.Obj.Name(), as, rs)
-	ax := "ax.op." + fi.Obj.Name()
-	if vc.isRevealed(fi.Obj.Name()) && !vc.declared[ax] {
-		vc.declared[ax] = true
-		var binders, names []string
-		var vals []Val
-		for i, a := range args {
-			srt := a.(*Scalar).S
-			vc.fresh++
-			bn := quoteName(fmt.Sprintf("a%d?%d", i, vc.fresh))
-			binders = append(binders, fmt.Sprintf("(%s %s)", bn, srt))
-			names = append(names, bn)
-			vals = append(vals, sc(bn, srt))
-		}
-		scratch := &State{vars: map[types.Object]Val{}, heap: map[string]string{}, pc: "true"}
-		for i, r := range reads {
-			vc.fresh++
-			bn := quoteName(fmt.Sprintf("h%d?%d", i, vc.fresh))
-			binders = append(binders, fmt.Sprintf("(%s %s)", bn, r.sort))
-			names = append(names, bn)
-			scratch.heap[r.name] = bn
-		}
-		saveMode, saveOld := vc.specMode, vc.oldState
-		vc.specMode, vc.oldState = true, scratch
-		body := vc.evalPure(scratch, fi, vals, call).(*Scalar).T
-		vc.specMode, vc.oldState = saveMode, saveOld
-		app := f
-		if len(names) > 0 {
-			app = sx(f, names...)
-		}
-		if len(binders) > 0 {
-			vc.decls = append(vc.decls, fmt.Sprintf("(assert (forall (%s) (! (= %s %s) :pattern (%s))))", strings.Join(binders, " "), app, body, app))
-		} else {
-			vc.decls = append(vc.decls, fmt.Sprintf("(assert (= %s %s))", app, body))
-		}
+	if len(ts) == 0 {
+		return sc(f, rs)
 	}
-	app := f
-	if len(ts) > 0 {
-		app = sx(f, ts...)
+	return sc(sx(f, ts...), rs)
+}
+
+// vidOf: the version identifier of a heap array term. Opaque predicates are applied to version
+// identifiers (scalars) instead of the arrays themselves; a heap merged at a control-flow join gets the
+// corresponding ite of the branch identifiers (see merge2), so that a folded predicate established on a
+// branch is still known after the join.
+func (vc *VC) vidOf(heapTerm string) string {
+	if vc.snaps == nil {
+		vc.snaps = map[string]string{}
 	}
-	if vc.isRevealed(fi.Obj.Name()) && !strings.Contains(app, "?") {
-		// revealed and ground: unfold in place (so that goals split into their conjuncts) and record the
-		// instance of the definition
-		saveMode := vc.specMode
-		vc.specMode = true
-		body := vc.evalPure(st, fi, args, call).(*Scalar)
-		vc.specMode = saveMode
-		key := "inst." + app
-		if !vc.declared[key] {
-			vc.declared[key] = true
-			vc.axiom(eq(app, body.T))
-		}
-		return sc(body.T, rs)
+	if c, ok := vc.snaps[heapTerm]; ok {
+		return c
 	}
-	return sc(app, rs)
+	vc.needSort("Vid")
+	c := quoteName(fmt.Sprintf("vid!%d", len(vc.snaps)+1))
+	vc.decls = append(vc.decls, fmt.Sprintf("(declare-const %s Vid)", c))
+	vc.snaps[heapTerm] = c
+	return c
 }
 
 func (vc *VC) isRevealed(name string) bool {
@@ -1353,4 +1350,41 @@ func (vc *VC) finsumAxioms() {
 		fmt.Sprintf("(assert (forall ((s %s)) (! (=> (not (= (fs.card s) %s)) (select s (fs.wit s))) :pattern ((fs.card s)))))", S, z),
 	)
 	vc.decls = append([]string{fmt.Sprintf("(declare-fun fs.wit (%s) Ref)", S)}, vc.decls...)
+}
+
+// touchedObjects: heap field -> object references named by the contract's `touches` clauses, evaluated
+// in the state before the call.
+func (vc *VC) touchedObjects(st *State, si *SpecInfo, recv Val, args []Val) map[string][]string {
+	out := map[string][]string{}
+	has := false
+	for _, c := range si.Clauses {
+		if c.Kind == "touches" {
+			has = true
+		}
+	}
+	if !has {
+		return out
+	}
+	b := vc.bindSpec(si, recv, args, nil)
+	saveInfo, saveMode, saveOld := vc.info, vc.specMode, vc.oldState
+	vc.info, vc.specMode, vc.oldState = si.Pkg.TypesInfo, true, st
+	defer func() {
+		vc.info, vc.specMode, vc.oldState = saveInfo, saveMode, saveOld
+		vc.unbind(b)
+	}()
+	for _, c := range si.Clauses {
+		if c.Kind != "touches" {
+			continue
+		}
+		for _, a := range c.Args {
+			p := vc.resolvePlace(st, a)
+			if p.kind != pHeap {
+				panic(unsupported("touches: %s is not a field of a heap object", exprString(a)))
+			}
+			for _, n := range vc.placeHeapNames(p) {
+				out[n] = append(out[n], p.ref)
+			}
+		}
+	}
+	return out
 }
